@@ -696,7 +696,10 @@ fn ex_src_of_asn(a: u32) -> &'static str {
 /// The sessions of a scenario.  "ebgp": everybody external (ranking by router id: o < s1 < s2).  "ibgp": the observer and
 /// s2 are internal non-client sessions (split horizon keeps s2's routes from the observer), s1 is external and therefore
 /// preferred.  "rs": the observer and s1 are route-server clients, s2 is a plain external peer (the route-server boundary
-/// keeps its routes from the observer).
+/// keeps its routes from the observer).  "rr": like "ibgp", but the observer is a route-reflector CLIENT, so the internal
+/// non-client s2 is reflected to it (nothing is suppressed).  "confed": the observer is a confederation-external peer (member
+/// AS 65002 of confederation 64512), s1 and s2 are plain external; the observer's own routes rank last (RFC 5065: treated as
+/// internal in the decision).  These two scenarios run on a two-shard table manager.
 fn ex_new_source(s: &str, scen: &str) -> Arc<table::Source> {
     // router ids implement the model's SrcRank among sessions of the same kind: o (1) < s1 (2) < s2 (3)
     let rid = match s {
@@ -705,8 +708,11 @@ fn ex_new_source(s: &str, scen: &str) -> Arc<table::Source> {
         _ => 3,
     };
     let (asn, role) = match (scen, s) {
-        ("ibgp", "s1") => (ex_src_asn(s), PeerRole::Ebgp),
+        ("ibgp", "s1") | ("rr", "s1") => (ex_src_asn(s), PeerRole::Ebgp),
         ("ibgp", _) => (65001, PeerRole::Ibgp),
+        ("rr", "o") => (65001, PeerRole::IbgpRrClient),
+        ("rr", _) => (65001, PeerRole::Ibgp),
+        ("confed", "o") => (65002, PeerRole::ConfedEbgp),
         ("rs", "s2") => (ex_src_asn(s), PeerRole::Ebgp),
         ("rs", _) => (ex_src_asn(s), PeerRole::RsClient),
         _ => (ex_src_asn(s), PeerRole::Ebgp),
@@ -778,7 +784,7 @@ fn ex_content(attr: &[packet::Attribute]) -> (String, String, bool) {
 }
 
 async fn ex_observer(global: &GlobalHandle, tables: &TableHandle, sendmax: usize, scen: &str) -> Observer {
-    let obs_asn: u32 = if scen == "ibgp" { 65001 } else { 65002 };
+    let obs_asn: u32 = if scen == "ibgp" || scen == "rr" { 65001 } else { 65002 };
     let (client, server) = pair_from(Ipv4Addr::new(127, 0, 0, 1)).await;
     let addr = IpAddr::V4(Ipv4Addr::new(127, 0, 0, 1));
     let mut sess = accept_connection(global, tables, server, crate::fsm::Role::Passive)
@@ -835,7 +841,21 @@ fn ex_import_policy(also_y: bool) -> Arc<table::PolicyAssignment> {
 impl ExWorld {
     async fn new(sendmax: usize, reject: &str, scen: &str) -> Self {
         let global = mk_global();
-        let tables: TableHandle = Arc::new(TableManager::new(1));
+        let tables: TableHandle = Arc::new(TableManager::new(if scen == "rr" || scen == "confed" { 2 } else { 1 }));
+        if tables.shards.len() == 2 {
+            // the model is told which shard holds which prefix (destination ids are allocated per shard): p1 -> 1, p2 -> 0,
+            // p3 -> 1.  Verified here on the real dealer; a different mapping is a harness problem, not a finding.
+            let probe = ex_new_source("s1", scen);
+            for (p, want) in [("p1", 1usize), ("p2", 0), ("p3", 1)] {
+                let _ = tables.insert_route(probe.clone(), Family::IPV4, packet::PathNlri::new(ex_prefix(p)), Some(bgp::Nexthop::V4(ex_nexthop("s1"))), ex_attrs("s1", "x"), None, 0);
+                let got = (0..2).find(|i| tables.shards[*i].lock().unwrap().rtable.state(Family::IPV4).num_destination == 1);
+                tables.remove_route(probe.clone(), Family::IPV4, packet::PathNlri::new(ex_prefix(p)), None, 0);
+                assert!(got == Some(want), "harness: prefix {p} is dealt to shard {got:?}, the model assumes {want}");
+            }
+        }
+        if scen == "confed" {
+            global.write().await.confederation = Some(ConfederationConfig { id: 64512, members: [65002u32].into_iter().collect() });
+        }
         // `reject` = <class|->[@<source>]: the neighbour's export policy rejects the routes of one attribute class (they carry
         // the community 65000:<n>) and / or the routes of one source.  The source half is an RPKI condition: ROAs make that
         // source's routes Invalid and everybody else's Valid, and the assignment is ACCUMULATED over two calls (the RPKI
@@ -892,6 +912,11 @@ impl ExWorld {
             "ibgp" => {
                 p.expected_remote_asn = 65001;
                 p.local_asn = 65001;
+            }
+            "rr" => {
+                p.expected_remote_asn = 65001;
+                p.local_asn = 65001;
+                p.route_reflector = RouteReflectorConfig { route_reflector_client: true, route_reflector_cluster_id: None };
             }
             "rs" => p.rs_client = true,
             _ => {}
@@ -1320,6 +1345,7 @@ fn prop_replay() {
             let src_addr = if same { dst_addr } else { IpAddr::V4(Ipv4Addr::new(10, 0, 0, 3)) };
             let source: Arc<table::Source> = match src {
                 "local" => table::Source::local(),
+                "kernel" => table::Source::kernel(),
                 k => {
                     let (rasn, role) = match k {
                         "ebgp" => (65010, PeerRole::Ebgp),
